@@ -2,6 +2,7 @@ package props
 
 import (
 	"fmt"
+	"github.com/sahandsafizadeh/qeep/component/optimizers"
 	"math"
 	"strings"
 
@@ -101,6 +102,12 @@ func (c16) Generate(r *sim.Rand, tier string) *sim.Scenario {
 			sc.Steps = append(sc.Steps, st)
 			if r.Bool(0.3) {
 				sc.Steps = append(sc.Steps, sim.Step{C: 1, Op: "weights", Out: -1})
+			}
+		case len(pending) == 0 && r.Bool(0.05):
+			k := r.Intn(2)
+			sc.Steps = append(sc.Steps, sim.Step{C: 1, Op: "update", N: k, Out: -1})
+			if r.Bool(0.8) {
+				sc.Steps = append(sc.Steps, sim.Step{C: 1, Op: "reset", N: k, B: r.Bool(0.6), Out: -1})
 			}
 		case r.Bool(0.03):
 			sc.Steps = append(sc.Steps, sim.Step{C: 1, Op: "tie", N: r.Intn(2), Out: -1})
@@ -378,6 +385,36 @@ func (prop c16) Execute(sc *sim.Scenario) *sim.Outcome {
 				}
 			}
 			if !checkPointers(where, false) {
+				return fin()
+			}
+		case "update":
+			// an optimizer step on one slot: the tensor behind the pointer becomes
+			// the result of an operation on a spent tensor (untracked, itself spent:
+			// forwards with it are dead until it is reset or replaced)
+			k := st.N % 2
+			if !cur[k].hasGrad {
+				break // nothing to step from: Update would rightly be rejected
+			}
+			pendingOn := false
+			for _, f := range fwds {
+				if f != nil && !f.done && (f.w == cur[k] || f.b == cur[k]) {
+					pendingOn = true // a not yet back-propagated output hangs on it: the operator waits
+				}
+			}
+			if pendingOn {
+				break
+			}
+			if err := optimizers.NewSGD(&optimizers.SGDConfig{LearningRate: 0.05}).Update(ptr[k]); err != nil {
+				out.Fail("update-error", "%s: SGD.Update of parameter %d (which holds a gradient) failed: %v", where, k, err)
+				return fin()
+			}
+			sim.Pause()
+			np := &pobj{t: *ptr[k], vals: sim.Values(*ptr[k]), tracked: false, spent: true}
+			sim.Resume()
+			cur[k] = np
+			all = append(all, np)
+			out.Faults["pointer-swap/optimizer-step"]++
+			if !checkPointers(where, false) || !checkGrads(where) {
 				return fin()
 			}
 		case "tie":
